@@ -88,6 +88,9 @@ Broken(e) ==
                  \cup (IF e.own = 1 /\ ~e.whole THEN {"stack_unmapped_partially"} ELSE {})
                  \cup (IF relby["tsm"] = "T" /\ ~e.disarmed THEN {"cleartid_armed_on_freed_tsm"} ELSE {})
                  \cup (IF relby["tsm"] # "T" /\ e.disarmed THEN {"cleartid_disarmed_but_owner_waits"} ELSE {})
+      \* the closure found a value it owns (captured by value) at an address its type does not allow,
+      \* or with other content than it was given: it does not run on what was passed to spawn
+      [] e.e = "capbad" -> {"closure_capture_misplaced_or_corrupted"}
       [] e.e = "timeout" -> {"hang_in_" \o e.op}
       [] e.e = "crash" -> {"crash"}
       [] e.e = "end" ->
